@@ -308,6 +308,56 @@ func runFormTransferEncoding() (sig, detail string) {
 	return "", ""
 }
 
+// urlencoded arrays under an Encoding Object: "style" and "explode" behave as for query parameters, so
+// explode defaults to true for form and to false for every other style (OpenAPI 3.0.3, Encoding Object)
+func runFormEncodingStyles() (out [][2]string) {
+	f := false
+	tr := true
+	for _, tc := range []struct {
+		style   string
+		explode *bool
+		body    string
+	}{
+		{"", nil, "ids=1&ids=2&ids=3"}, {"form", nil, "ids=1&ids=2&ids=3"}, {"form", &tr, "ids=1&ids=2&ids=3"}, {"form", &f, "ids=1,2,3"},
+		{"spaceDelimited", &f, "ids=1%202%203"}, {"pipeDelimited", &f, "ids=1|2|3"},
+		{"spaceDelimited", &tr, "ids=1&ids=2&ids=3"}, {"pipeDelimited", &tr, "ids=1&ids=2&ids=3"},
+		{"spaceDelimited", nil, "ids=1%202%203"}, {"pipeDelimited", nil, "ids=1|2|3"},
+	} {
+		arr := openapi3.NewArraySchema().WithItems(openapi3.NewIntegerSchema()).WithMinItems(3).WithMaxItems(3)
+		s := openapi3.NewObjectSchema().WithProperty("ids", arr).WithRequired([]string{"ids"})
+		mt := openapi3.NewMediaType().WithSchema(s)
+		if tc.style != "" || tc.explode != nil {
+			mt.Encoding = map[string]*openapi3.Encoding{"ids": {Style: tc.style, Explode: tc.explode}}
+		}
+		rb := openapi3.NewRequestBody().WithContent(openapi3.Content{"application/x-www-form-urlencoded": mt})
+		op := openapi3.NewOperation()
+		op.RequestBody = &openapi3.RequestBodyRef{Value: rb}
+		op.Responses = openapi3.NewResponses()
+		item := &openapi3.PathItem{Post: op}
+		doc := &openapi3.T{OpenAPI: "3.0.0", Info: &openapi3.Info{Title: "t", Version: "1"}, Paths: openapi3.NewPaths()}
+		route := &routers.Route{Spec: doc, Path: "/f", PathItem: item, Method: "POST", Operation: op}
+		req := httptest.NewRequest("POST", "/f", strings.NewReader(tc.body))
+		req.Header.Set("Content-Type", "application/x-www-form-urlencoded")
+		in := &openapi3filter.RequestValidationInput{Request: req, Route: route, Options: &openapi3filter.Options{SkipSettingDefaults: true}}
+		var err error
+		ex := "unset"
+		if tc.explode != nil {
+			ex = fmt.Sprint(*tc.explode)
+		}
+		what := fmt.Sprintf("encoding style %q explode %s body %q", tc.style, ex, tc.body)
+		if pn := catchPanic(func() { err = openapi3filter.ValidateRequestBody(context.Background(), in, rb) }); pn != nil {
+			out = append(out, [2]string{"form:urlencoded:panic", what + ": " + fmt.Sprint(pn)})
+		} else if err != nil {
+			sig := "form:urlencoded:array-in-declared-encoding-rejected"
+			if tc.explode == nil && tc.style != "" && tc.style != "form" {
+				sig += ":delimited-style-explode-unset"
+			}
+			out = append(out, [2]string{sig, what + ": " + err.Error()})
+		}
+	}
+	return
+}
+
 // ---- urlencoded bodies against the Coq model (Model/FormBody.v, judge Exec/C06FormExec.v) ----
 type C06FormObs struct {
 	Err   string `json:"error,omitempty"`
